@@ -8,7 +8,8 @@ namespace c16 {
 using namespace Fastor;
 
 enum Func { SUM = 0, PRODUCT, MIN, MAX, NORM, INNER2, MSUM /* a.sum() */, MPRODUCT /* a.product() */, TRACE, INNER1 };
-enum Arg { A_TENSOR = 0, A_ADD /* a+b */, A_NEG /* -a */, A_SCALE /* 2*a */, A_TAILVIEW /* a(fseq<1,N>) on 1-D */ };
+enum Arg { A_TENSOR = 0, A_ADD /* a+b */, A_NEG /* -a */, A_SCALE /* 2*a */, A_TAILVIEW /* a(fseq<1,N>) on 1-D */,
+           A_TE /* inner(a, b+0): tensor, expression */, A_EE /* inner(a+0, b+0) */, A_TV /* inner(a, view of b) */ };
 
 template <int F> struct FT {};
 template <class X> static inline auto apply(FT<SUM>, const X& x) { return sum(x); }
@@ -39,6 +40,9 @@ template <int F, int ARG, class TT> struct Thunk {
     template <int G> static T go(FT<G>, std::integral_constant<int, A_TAILVIEW>, const TT& a, const TT&) { return apply(FT<G>(), a(fseq<1, TT::size()>())); }
     static T go(FT<INNER2>, std::integral_constant<int, A_TENSOR>, const TT& a, const TT& b) { return inner(a, b); }
     static T go(FT<INNER2>, std::integral_constant<int, A_ADD>, const TT& a, const TT& b) { return inner(a + b, b); }
+    static T go(FT<INNER2>, std::integral_constant<int, A_TE>, const TT& a, const TT& b) { return inner(a, b + 0); }
+    static T go(FT<INNER2>, std::integral_constant<int, A_EE>, const TT& a, const TT& b) { return inner(a + 0, b + 0); }
+    static T go(FT<INNER2>, std::integral_constant<int, A_TV>, const TT& a, const TT& b) { return inner(a, T(1) * b); }
     static T go(FT<MSUM>, std::integral_constant<int, A_TENSOR>, const TT& a, const TT&) { return a.sum(); }
     static T go(FT<MPRODUCT>, std::integral_constant<int, A_TENSOR>, const TT& a, const TT&) { return a.product(); }
 };
